@@ -64,6 +64,11 @@ pub struct S14 {
     /// wrapper) to the start of element k and read the rest again
     #[serde(default)]
     pub rewind: Option<usize>,
+    /// writer side, counting wrapper: the wrapper is used for a section of the stream only:
+    /// after the history it is unwrapped (into_inner) and these fields are written on the
+    /// writer it returns, which must continue exactly where the bare writer would
+    #[serde(default)]
+    pub cont: Vec<(u64, usize)>,
 }
 
 /// Counting wrappers at scale: the writer wrapper over the sparse recording sink writes a
@@ -714,6 +719,12 @@ macro_rules! writer_case {
             Ok(v) => v,
             Err(_) => return,
         };
+        let cont: &[(u64, usize)] = if $s.wrap == Wrap14::Count { &$s.cont } else { &[] };
+        for (v, n) in cont {
+            if !matches!(guard(|| bare.write_bits(*v, *n)), Ok(Ok(_))) {
+                return;
+            }
+        }
         if !matches!(guard(|| bare.flush()), Ok(Ok(_))) {
             return;
         }
@@ -732,12 +743,34 @@ macro_rules! writer_case {
                 let mut wr = ManuallyDrop::new(CountBitWriter::<$E, _>::new(inner));
                 let wl2 = w_log.clone();
                 let r = run_w::<$E, _>($e, &mut *wr, &$s.elems, $how, &mut |w, i, f| counts.push((i, w.bits_written, f, wl2.borrow().words.len())));
-                let fl = guard(|| wr.flush());
-                let words = w_log.borrow().words.clone();
-                if matches!(fl, Ok(Ok(_))) {
-                    let _ = guard(|| unsafe { ManuallyDrop::drop(&mut wr) });
+                if cont.is_empty() {
+                    let fl = guard(|| wr.flush());
+                    let words = w_log.borrow().words.clone();
+                    if matches!(fl, Ok(Ok(_))) {
+                        let _ = guard(|| unsafe { ManuallyDrop::drop(&mut wr) });
+                    }
+                    (r, words)
+                } else {
+                    // the wrapper covered a section of the stream only: unwrap, carry on with
+                    // the writer it gives back
+                    $ctx.probe("c14.unwrap_mid_stream_and_continue");
+                    let wrapper = unsafe { ManuallyDrop::take(&mut wr) };
+                    let mut inner2 = match guard(|| wrapper.into_inner()) {
+                        Ok(w) => ManuallyDrop::new(w),
+                        Err(p) => return $ctx.fail("C14.panic", format!("CountBitWriter::into_inner panicked: {}", p)),
+                    };
+                    for (v, n) in cont {
+                        if !matches!(guard(|| inner2.write_bits(*v, *n)), Ok(Ok(_))) {
+                            return $ctx.fail("C14.writer_not_transparent", "a write on the writer returned by into_inner failed".into());
+                        }
+                    }
+                    let fl = guard(|| inner2.flush());
+                    let words = w_log.borrow().words.clone();
+                    if matches!(fl, Ok(Ok(_))) {
+                        let _ = guard(|| unsafe { ManuallyDrop::drop(&mut inner2) });
+                    }
+                    (r, words)
                 }
-                (r, words)
             }
             Wrap14::Dbg => {
                 let mut wr = ManuallyDrop::new(DbgBitWriter::<$E, _>::new(inner));
@@ -927,6 +960,7 @@ impl Family for C14 {
                 side: Side14::Writer { word: g.wword, pre: Vec::new(), how: Vec::new() },
                 giant: Some(g),
                 rewind: None,
+                cont: Vec::new(),
             };
         }
         let n = rng.usize_range(1, 10);
@@ -961,6 +995,7 @@ impl Family for C14 {
                 },
                 giant: None,
                 rewind: if rng.chance(1, 3) { Some(rng.usize_range(0, m.saturating_sub(1))) } else { None },
+                cont: Vec::new(),
             }
         } else {
             let word = [Wd::U8, Wd::U16, Wd::U32, Wd::U64, Wd::U128][((index / 8) % 5) as usize];
@@ -982,6 +1017,16 @@ impl Family for C14 {
                 },
                 giant: None,
                 rewind: None,
+                cont: if rng.chance(1, 3) {
+                    (0..rng.usize_range(1, 3))
+                        .map(|_| {
+                            let k = rng.usize_range(1, 64);
+                            (mask(rng.next() | 1, k), k)
+                        })
+                        .collect()
+                } else {
+                    Vec::new()
+                },
             }
         }
     }
@@ -1087,6 +1132,9 @@ impl Family for C14 {
 
     fn shrink(s: &S14) -> Vec<S14> {
         let mut out = Vec::new();
+        if !s.cont.is_empty() {
+            out.push(S14 { cont: Vec::new(), ..s.clone() });
+        }
         if let Some(g) = &s.giant {
             for g2 in crate::giant::shrink_giant(g) {
                 out.push(S14 { giant: Some(g2), ..s.clone() });
@@ -1195,6 +1243,7 @@ impl Family for C14 {
 
     fn required_probes(_t: Tier) -> Vec<&'static str> {
         vec![
+            "c14.unwrap_mid_stream_and_continue",
             "c14.seek_back_through_wrapper",
             "scale.count_writer_2^32",
             "scale.count_reader_2^32",
